@@ -87,7 +87,7 @@ pub fn vocab(lang: &str) -> Vec<&'static str> {
             "metal", "mailbox", "yellow", "detector", "de", "het", "een", "wandelen", "gewandeld", "zeeën", "ideeën", "café", "cafés", "überhaupt", "à", "èn",
         ],
         "xr" => vec![
-            "café", "cafe", "CAFÉ", "cafe\u{301}", "straße", "strasse", "STRASSE", "GROẞ", "groß", "smørrebrød", "smoerrebroed", "Øl", "øl", "été", "ete", "é", "ß", "ø",
+            "gås", "ga\u{30a}s", "GÅS", "GA\u{30a}S", "gaas", "blå", "bla\u{30a}", "café", "cafe", "CAFÉ", "cafe\u{301}", "straße", "strasse", "STRASSE", "GROẞ", "groß", "smørrebrød", "smoerrebroed", "Øl", "øl", "été", "ete", "é", "ß", "ø",
             "metal", "mailbox", "yellow", "detector", "the", "of", "über", "u\u{308}ber", "fußball", "fussball", "résumé", "resume",
         ],
         "en" => vec![
@@ -346,7 +346,8 @@ pub fn shaped_title(rng: &mut Rng, lang: &str) -> String {
 }
 
 pub fn long_title(rng: &mut Rng, lang: &str) -> String {
-    let n = rng.range(21, 40);
+    // beyond the 20-slot buffers; one in five beyond 64 and 128 words as well
+    let n = if rng.chance(1, 5) { rng.range(65, 140) } else { rng.range(21, 40) };
     let alpha = lower_alphabet(lang);
     let v = vocab(lang);
     let mut words: Vec<String> = vec![];
